@@ -92,14 +92,14 @@ func (g *sgen) withSpec(a, b, c int) string {
 // a column size around a power of the bases a packed weight could use
 func (g *sgen) heavyCount() int {
 	r := g.r
-	switch k := r.Intn(16); {
-	case k < 11:
+	switch k := r.Intn(32); {
+	case k < 22:
 		return r.Range(9, 13)
-	case k < 13:
+	case k < 26:
 		return r.Range(15, 21)
-	case k == 13:
+	case k < 28:
 		return r.Range(99, 101)
-	case k == 14:
+	case k == 28:
 		return r.Range(255, 257)
 	}
 	return r.Range(2, 8)
@@ -241,6 +241,9 @@ func (g *sgen) skelCompound(d, lvl int) string {
 	}
 	rel := func(depth int) string {
 		name := vlib.Pick(r, []string{"not", "is", "has", "haschild", "is", "not", "IS", "Not"})
+		if lvl > 0 && !r.Chance(1, 6) { // nested :has(:has(:has())) with combinators costs nodes^depth in the model: mostly :is / :not below the top
+			name = vlib.Pick(r, []string{"not", "is", "Not", "IS"})
+		}
 		return ":" + name + "(" + g.ws() + g.skelGroup(depth, lvl+1) + g.ws() + ")"
 	}
 	if d > 0 {
